@@ -381,6 +381,8 @@ class Flow:
         for n, f, lab in steps:
             if n.kind in ("join",):
                 continue
+            if isinstance(n.ast, ast.Expr) and isinstance(n.ast.value, ast.Constant) and isinstance(n.ast.value.value, str):
+                continue        # docstring
             out.append("%s%s [%s]" % (("--%s--> " % lab) if lab else "", ("L%d " % n.lineno if n.lineno else "") + n.text(), f))
         if len(out) > limit:
             out = out[:limit // 2] + ["..."] + out[-limit // 2:]
